@@ -261,7 +261,8 @@ def f4_xdev_stale():
                 return r
 
         def copystat_after_a_loader(src, dst, **k):
-            if dst == entry and 'window' not in seen:
+            if dst == entry and 'entered' not in seen:
+                seen['entered'] = True          # (the loader below may store, and so come back here)
                 seen['entry_mtime_in_window'] = os.stat(entry).st_mtime
                 seen['window'] = e.transformer_load()
             return real_copystat(src, dst, **k)
